@@ -35,7 +35,8 @@ RULE = (
     "MultiTierCache (L1/L2 CachedStores, each promotion policy, L2 pre-warmed); SoftTTLCache (soft/hard TTL, gaps aimed at "
     "both TTL edges, direct backing writes, concurrent refreshes); PageCache (rounds: mixed clean/dirty residents, then overlapping "
     "read_page/write_page of one page during the dirty-victim write-back, flush at quiescence; plus free-running read/write/flush, read-ahead). "
-    "All written values are unique ids. Non-trivial: cached/multitier - the run had >=1 eviction and >=1 miss-fill (or "
+    "Written values are unique tagged ids, except that ~22 % of writes store the key's falsy value (0, '', False, 0.0, [], {}) and ~3 % None "
+    "(compared type-exactly through a canonical token). Non-trivial: cached/multitier - the run had >=1 eviction and >=1 miss-fill (or "
     "promotion) whose interval overlapped a write to the same key; softttl - >=1 stale hit, >=1 access to an expired "
     "entry and >=1 backing-store change while the key was cached; pagecache - >=1 eviction and >=2 loads in flight at once. "
     "Distinct by hash of the case."
@@ -48,6 +49,9 @@ ASSUMPTIONS = [
     "entry age is bounded from below by issue time minus the instant the served value stopped being current in the backing store "
     "(no private cached_at is read), so a hard-TTL overrun smaller than the gap between fetch and overwrite is not visible",
     "eviction policies are observed through a deep copy; TTLEviction is given the simulation clock as clock_func",
+    "a stored None is indistinguishable from an absent key for a reader (that is what HEAD implements), so put(k, None) is modelled "
+    "as a write of None like a delete; falsy values repeat within a key history, so a read of one is accepted if ANY write of that "
+    "value is an allowed answer",
     "invalidate(k)/invalidate_all() on a dirty key of a write-back CachedStore is an explicit request to drop unflushed data "
     "(documented contract; MultiTierCache.put relies on it): the harness skips such an invalidation and counts it",
     "a stale read / final loss is labelled with the earliest unrefuted explanatory fact on the key; a second defect on the same "
@@ -104,6 +108,50 @@ def gen_policy(rng: random.Random, name=None) -> dict:
     return spec
 
 
+WRITE_KINDS = ("put", "bput", "bput_raw")
+
+
+def falsy_value(ki: int):
+    """The falsy value of a key (one flavour per key, a fresh object every time): 0, "", False, 0.0, [], {}."""
+    return [0, "", False, 0.0, [], {}][ki % 6]
+
+
+def op_value(cid, j, op):
+    """Value written by op j of client cid: a unique tagged id, or - op[3] - the key's falsy value / None."""
+    tag = op[3] if len(op) > 3 else None
+    if tag == "falsy":
+        return falsy_value(op[2])
+    if tag == "none":
+        return None
+    return f"v{cid}.{j}"
+
+
+def init_value(spec, k, ki):
+    """Initial backing-store content of key k: absent (False), tagged id (True) or the key's falsy value ("falsy")."""
+    if spec == "falsy":
+        return True, falsy_value(ki)
+    return bool(spec), f"i.{k}"
+
+
+def _init_spec(rng, p_present):
+    if rng.random() >= p_present:
+        return False
+    return "falsy" if rng.random() < 0.15 else True
+
+
+def _sprinkle_values(rng, clients):
+    """Mark some writes as falsy / None (4th op element); the others keep unique tagged ids, so most reads stay
+    attributable to one write while every key history also contains falsy values."""
+    for c in clients:
+        for op in c["ops"]:
+            if op[1] in WRITE_KINDS and len(op) == 3 and op[2] is not None:
+                x = rng.random()
+                if x < 0.22:
+                    op.append("falsy")
+                elif x < 0.25:
+                    op.append("none")
+
+
 def _entities():
     from happysimulator.core.entity import Entity
     from happysimulator.core.event import Event
@@ -136,7 +184,7 @@ def make_client_classes():
                 gap, kind = op[0], op[1]
                 key = self.keys[op[2]] if len(op) > 2 and op[2] is not None else None
                 yield gap
-                val = f"v{self.cid}.{j}" if kind in ("put", "bput", "bput_raw") else None
+                val = op_value(self.cid, j, op) if kind in WRITE_KINDS else None
                 yield from mon.do(self.cid, kind, key, val)
             self.ctx.remaining -= 1
             if self.ctx.remaining == 0 and self.ctx.finalizer is not None:
@@ -390,13 +438,14 @@ def gen_cached(rng: random.Random, tier: str) -> dict:
     if rng.random() < 0.25:
         ks = [rng.randrange(nkeys) for _ in range(rng.randint(2, 8))]
         warmer = {"keys": ks, "rate": rng.choice([100.0, 500.0, 2000.0]), "latency": 0.001}
+    _sprinkle_values(rng, clients)
     return {
         "policy": gen_policy(rng),
         "write_through": wt,
         "capacity": cap,
         "nkeys": nkeys,
         "lat": lat,
-        "init": [rng.random() < 0.7 for _ in range(nkeys)],
+        "init": [_init_spec(rng, 0.7) for _ in range(nkeys)],
         "profile": profile,
         "clients": clients,
         "warmer": warmer,
@@ -414,10 +463,11 @@ def run_cached(case: dict) -> Result:
     lat = case["lat"]
     backing = KVStore("backing", read_latency=lat["read"], write_latency=lat["write"], delete_latency=lat["delete"])
     init = {}
-    for k, present in zip(keys, case["init"]):
+    for ki, (k, spec) in enumerate(zip(keys, case["init"])):
+        present, v0 = init_value(spec, k, ki)
         if present:
-            init[k] = f"i.{k}"
-            backing.put_sync(k, init[k])
+            init[k] = v0
+            backing.put_sync(k, v0)
     policy = mk_policy(case["policy"], lambda: backing.now.to_seconds())
     store = CachedStore(
         "cache",
@@ -494,13 +544,14 @@ def gen_multitier(rng: random.Random, tier: str) -> dict:
         for c in block:
             c["start"] = round(c["start"] + 0.05, 7)
         clients = block + clients[: rng.randint(0, 2)]
+    _sprinkle_values(rng, clients)
     return {
         "promotion": rng.choice(["always", "on_second_access", "never"]),
         "l1": {"policy": gen_policy(rng), "capacity": rng.randint(1, 2), "latency": rng.choice([0.0, 0.0001, 0.0005]), "write_through": rng.random() < 0.85},
         "l2": {"policy": gen_policy(rng), "capacity": rng.randint(2, 4), "latency": rng.choice([0.0005, 0.001, 0.002]), "write_through": True},
         "nkeys": nkeys,
         "lat": lat,
-        "init": [rng.random() < 0.8 for _ in range(nkeys)],
+        "init": [_init_spec(rng, 0.8) for _ in range(nkeys)],
         "prewarm": [rng.randrange(nkeys) for _ in range(rng.randint(0, 4))],
         "clients": clients,
     }
@@ -516,10 +567,11 @@ def run_multitier(case: dict) -> Result:
     lat = case["lat"]
     backing = KVStore("backing", read_latency=lat["read"], write_latency=lat["write"], delete_latency=lat["delete"])
     init = {}
-    for k, present in zip(keys, case["init"]):
+    for ki, (k, spec) in enumerate(zip(keys, case["init"])):
+        present, v0 = init_value(spec, k, ki)
         if present:
-            init[k] = f"i.{k}"
-            backing.put_sync(k, init[k])
+            init[k] = v0
+            backing.put_sync(k, v0)
     nowf = lambda: backing.now.to_seconds()  # noqa: E731
     tiers = []
     for label in ("l1", "l2"):
@@ -597,13 +649,14 @@ def gen_softttl(rng: random.Random, tier: str) -> dict:
     warmer = None
     if rng.random() < 0.15:
         warmer = {"keys": [rng.randrange(nkeys) for _ in range(rng.randint(1, 5))], "rate": rng.choice([100.0, 1000.0]), "latency": 0.001}
+    _sprinkle_values(rng, clients)
     return {
         "soft": soft,
         "hard": round(hard, 6),
         "capacity": cap,
         "nkeys": nkeys,
         "lat": lat,
-        "init": [rng.random() < 0.8 for _ in range(nkeys)],
+        "init": [_init_spec(rng, 0.8) for _ in range(nkeys)],
         "clients": clients,
         "warmer": warmer,
     }
@@ -620,10 +673,11 @@ def run_softttl(case: dict) -> Result:
     lat = case["lat"]
     backing = KVStore("backing", read_latency=lat["read"], write_latency=lat["write"])
     init = {}
-    for k, present in zip(keys, case["init"]):
+    for ki, (k, spec) in enumerate(zip(keys, case["init"])):
+        present, v0 = init_value(spec, k, ki)
         if present:
-            init[k] = f"i.{k}"
-            backing.put_sync(k, init[k])
+            init[k] = v0
+            backing.put_sync(k, v0)
     store = SoftTTLCache("sttl", backing_store=backing, soft_ttl=case["soft"], hard_ttl=case["hard"], cache_capacity=case["capacity"], cache_read_latency=lat["cache"])
     tiers = [Tier("sttl", store, None, "builtin-lru", write_back=False)]
     mon = Mon(res, "SoftTTLCache", store, backing, keys, tiers, init, hard_ns=store.hard_ttl.nanoseconds)
